@@ -52,25 +52,22 @@ impl Constraint {
         })
     }
 
-    /// Whether the constraint carries an extension marker, on the element set as a whole
-    /// or on its only element.
+    /// Whether the constraint carries an extension marker: on the element set as a whole,
+    /// on its only element, or -- where the parser leaves the marker that ends a set
+    /// operation, `(2..3 | 5, ...)` -- on the last operand.
     pub fn is_extensible(&self) -> bool {
-        match self {
-            Constraint::Subtype(set) => {
-                set.extensible
-                    || matches!(
-                        &set.set,
-                        ElementOrSetOperation::Element(
-                            SubtypeElements::ValueRange {
-                                extensible: true,
-                                ..
-                            } | SubtypeElements::SingleValue {
-                                extensible: true,
-                                ..
-                            }
-                        )
-                    )
+        fn last_element_is_extensible(set: &ElementOrSetOperation) -> bool {
+            match set {
+                ElementOrSetOperation::Element(
+                    SubtypeElements::ValueRange { extensible, .. }
+                    | SubtypeElements::SingleValue { extensible, .. },
+                ) => *extensible,
+                ElementOrSetOperation::Element(_) => false,
+                ElementOrSetOperation::SetOperation(op) => last_element_is_extensible(&op.operant),
             }
+        }
+        match self {
+            Constraint::Subtype(set) => set.extensible || last_element_is_extensible(&set.set),
             _ => false,
         }
     }
